@@ -90,7 +90,7 @@ CHECKS = {
         "technique": "exhaustive fault-point enumeration (every Read/Write index of the exchange x fault kind x follow-up x reachability) inside testing/synctest bubbles, plus rapid-drawn faults on later connections; hang verdict from quiescence, goroutine census",
         "level_text": "Fault enumeration: for every I/O operation index of connect-time negotiation and two exchanges (7 reads, 3 writes), every failure kind (EOF, closed, reset, short write), the server closing right after each reply and the server vanishing exactly when a request is handed to the write loop (hook), crossed with negotiation on/off, reachability afterwards and five follow-ups, one deterministic execution runs in a synctest bubble: 'the call does not return and nothing can make progress' is a detectable state, so hangs are decided without wall-clock. Oracle: complete own response or error, never two consecutive failed calls on a reachable server, at most 4 transmissions per request, closed means closed, census 0. A rapid job moves the fault to later connections and larger indices.",
         "level_note": "Single caller (the client serialises calls under one lock; concurrent callers are covered by C10's real-time harness); I/O indices are those of the client end of the in-memory connection.",
-        "jobs": [plain("client", "TestC11Faults", timeout_s={"quick": 600, "thorough": 900}), rapid("client", "TestC11Random", 1500, 10000)],
+        "jobs": [plain("client", "TestC11Faults", timeout_s={"quick": 600, "thorough": 900}), rapid("client", "TestC11Random", 1500, 10000), rapid("client", "TestC11DefaultDialer", 150, 1500, shards=4)],
         "assumptions": ["an io.Reader/io.Writer fault is sticky: once a connection has failed every later call on it fails too"],
     },
     "C12": {
